@@ -1129,4 +1129,117 @@ def desugarAssert (src : AssertSrc) (seq : Nat) : Except AssertErr (List Mutatio
         | .error e => .error e
         | .ok clientKey => .ok (assertClauses src seq by_ mode clientKey)
 
+/-! ## The text-only lowering steps in front of the tree (`structural_tuple`, `ensure_proposition`,
+`assert_statement`) -/
+
+inductive TupleErr where
+  | bareId
+  | predPath
+  | predVariable
+  deriving DecidableEq, Repr
+
+/-- `structural_tuple`: `(id: …)` only matches an existing Proposition and no structure can be
+created from it; a predicate path and a `?variable` predicate are read-pattern syntax. -/
+def structuralTuple : PropMatcher → Except TupleErr (Term × PredAtom × Term)
+  | .id _ => .error .bareId
+  | .tuple s pr o =>
+    match pr with
+    | .path _ => .error .predPath
+    | .atom a =>
+      match a with
+      | .vari _ => .error .predVariable
+      | _ => .ok (s, a, o)
+
+/-- `ensure_proposition`: `ENSURE PROPOSITION [?h] <proposition expression> [EXPECT VERSION v]` -/
+def lowerEnsure (handle : Option String) (m : PropMatcher) (expectVersion : Bool) : Except TupleErr MutationClause :=
+  match structuralTuple m with
+  | .error e => .error e
+  | .ok (s, p, o) =>
+    .ok (.ensureProposition { handle := handle, subject := s, predicate := p, object := o, expectVersion := expectVersion })
+
+/-- `ASSERT [?h] <proposition expression> { members } [SUPERSEDING target]` as the grammar reads it -/
+structure AssertText where
+  handle : Option String
+  matcher : PropMatcher
+  members : Assignments
+  superseding : Option ElementRef
+
+inductive LowerErr where
+  | tuple (e : TupleErr)
+  | members (e : AssertErr)
+  deriving DecidableEq, Repr
+
+/-- `assert_statement`: the tuple goes through `structural_tuple` first, then the members -/
+def lowerAssert (a : AssertText) (seq : Nat) : Except LowerErr (List MutationClause) :=
+  match structuralTuple a.matcher with
+  | .error e => .error (.tuple e)
+  | .ok (s, p, o) =>
+    match desugarAssert { handle := a.handle, subject := s, predicate := p, object := o,
+                          members := a.members, superseding := a.superseding } seq with
+    | .error e => .error (.members e)
+    | .ok cs => .ok cs
+
+/-! ## Entry points (`parser.rs`) -/
+
+/-- `Command`, as far as `validate_command` looks at it -/
+inductive Command where
+  | kml (st : Plan)
+  | exportCapsule (ws : WhereList)
+  /-- KQL and every other META command -/
+  | other
+
+/-- `validate_command`: the route of a pre-parsed tree -/
+def validateCommand : Command → Res
+  | .kml st => validatePlan st
+  | .exportCapsule ws => validateExport ws
+  | .other => .ok ()
+
+inductive ParseErr where
+  | grammar
+  | guard (e : Err)
+  deriving DecidableEq, Repr
+
+inductive RouteState where
+  | start
+  | parsed (cmd : Command)
+  | failed (e : ParseErr)
+  | returned (cmd : Command)
+
+/-- one step of a `parse_*` entry point. The steps and their order are *generated* from `parser.rs`
+(`Gen/KipGuardTables.parseKipOrder`): `budget` (the pre-scan, C15), `grammar` (not modelled: any
+function from the input to an optional tree), `validate_command` / `validate_plan` (the guards, with
+`?`: an error leaves), `return` (`Ok(command)`). -/
+def routeStep {ι : Type} (grammar : ι → Option Command) (input : ι) (s : RouteState) (step : String) : RouteState :=
+  match s with
+  | .start =>
+    if step = "grammar" then
+      match grammar input with
+      | none => .failed .grammar
+      | some c => .parsed c
+    else if step = "return" then .failed .grammar
+    else .start
+  | .parsed c =>
+    if step = "validate_command" ∨ step = "validate_plan" then
+      match validateCommand c with
+      | .error e => .failed (.guard e)
+      | .ok _ => .parsed c
+    else if step = "return" then .returned c
+    else .parsed c
+  | .failed e => .failed e
+  | .returned c => .returned c
+
+def runRoute {ι : Type} (order : List String) (grammar : ι → Option Command) (input : ι) : Except ParseErr Command :=
+  match order.foldl (routeStep grammar input) .start with
+  | .returned c => .ok c
+  | .failed e => .error e
+  | _ => .error .grammar
+
+/-- `parse_kip`: the route of text -/
+def parseKip {ι : Type} (grammar : ι → Option Command) (input : ι) : Except ParseErr Command :=
+  runRoute KipGuardTables.parseKipOrder grammar input
+
+/-- `parse_kml` (its grammar yields a KML statement) -/
+def parseKml {ι : Type} (grammar : ι → Option Plan) (input : ι) : Except ParseErr Command :=
+  runRoute KipGuardTables.parseKmlOrder (fun i => (grammar i).map Command.kml) input
+
 end AndaVerif.KmlGuard
